@@ -179,7 +179,7 @@ example : ∃ (X Y : ℝ) (h : ℕ) (cx cy : ℝ), proj (α := ℝ) 1 0 = some (
       h < 12 * 3 * 3 ∧ centerOfProjectedCell (α := ℝ) true 3 h = some (cx, cy) ∧
       (|X - cx| + |Y - cy| ≤ 1 / (3 : ℕ) ∨ |X - 8 - cx| + |Y - cy| ≤ 1 / (3 : ℕ)) :=
   ring_hash_sphere_partial true (n := 3) (by norm_num) (by norm_num) (by unfold RingIndexExact; decide +kernel) 1 0
-    (by norm_num) (by linarith [Real.pi_gt_three]) (by linarith [Real.pi_pos]) (by linarith [Real.pi_pos])
+    (by norm_num) (by linarith [Real.two_le_pi]) (by linarith [Real.pi_pos]) (by linarith [Real.pi_pos])
     (Or.inl (Real.arcsin_pos.mpr (by norm_num)))
 
 /-! ## the north pole -/
@@ -212,28 +212,31 @@ theorem ring_hash_pole (debug : Bool) {n q : Nat} (hn : 1 ≤ n) (hn30 : n < 2 ^
     (by rw [hdl, half_floor]; rcases hmod (n * (2 * q + 1)) with h | h <;> rw [h] <;> linarith)
     (by rw [hdh, half_floor]; rcases hmod (5 * n) with h | h <;> rw [h] <;> linarith)
     (by rw [hdh, half_floor]; rcases hmod (5 * n) with h | h <;> rw [h] <;> linarith)]
-  have hbx := box_exact (n * (2 * q + 1) / 2) (5 * n / 2) (1 / 2 * n * ((2 * q + 1 : ℕ) : ℝ) - ((n * (2 * q + 1) / 2 : ℕ) : ℝ))
-    (1 / 2 * n * (2 + 3) - ((5 * n / 2 : ℕ) : ℝ))
-    (by rw [hdl, half_floor]; rcases hmod (n * (2 * q + 1)) with h | h <;> rw [h] <;> linarith)
-    (by rw [hdl, half_floor]; rcases hmod (n * (2 * q + 1)) with h | h <;> rw [h] <;> linarith)
-    (by rw [hdh, half_floor]; rcases hmod (5 * n) with h | h <;> rw [h] <;> linarith)
-    (by rw [hdh, half_floor]; rcases hmod (5 * n) with h | h <;> rw [h] <;> linarith)
-  obtain ⟨-, -, -, -, -, -, k1, k2, i1, i2, i3⟩ := hbx
-  -- the ring selected is `5n` or above: `dl = dh` (both `0` or both `1/2`), so `in1` holds
-  have hin1 : 2 * (5 * n / 2) + 1 ≤ (dealWith1x1Box (1 / 2 * (n : ℝ) * ((2 * q + 1 : ℕ) : ℝ) - ((n * (2 * q + 1) / 2 : ℕ) : ℝ))
-      (1 / 2 * n * (2 + 3) - ((5 * n / 2 : ℕ) : ℝ)) (2 * (5 * n / 2)) (n * (2 * q + 1) / 2)).1 := by
-    have e : 1 / 2 * (n : ℝ) * ((2 * q + 1 : ℕ) : ℝ) - ((n * (2 * q + 1) / 2 : ℕ) : ℝ)
-        = 1 / 2 * n * (2 + 3) - ((5 * n / 2 : ℕ) : ℝ) := by
-      rw [hdl, hdh, half_floor, half_floor]
-      have : (n * (2 * q + 1)) % 2 = (5 * n) % 2 := by
-        rw [Nat.mul_add, Nat.mul_one]
-        have : n * (2 * q) = 2 * (n * q) := by ring
-        omega
-      rw [this]; ring
-    rw [e]
+  have e : 1 / 2 * (n : ℝ) * ((2 * q + 1 : ℕ) : ℝ) - ((n * (2 * q + 1) / 2 : ℕ) : ℝ)
+      = 1 / 2 * n * (2 + 3) - ((5 * n / 2 : ℕ) : ℝ) := by
+    rw [hdl, hdh, half_floor, half_floor]
+    have : (n * (2 * q + 1)) % 2 = (5 * n) % 2 := by
+      rw [Nat.mul_add, Nat.mul_one]
+      have : n * (2 * q) = 2 * (n * q) := by ring
+      omega
+    rw [this]; ring
+  rw [e]
+  generalize 1 / 2 * (n : ℝ) * (2 + 3) - ((5 * n / 2 : ℕ) : ℝ) = f
+  have hbox : ∃ K, 5 * n ≤ K ∧ dealWith1x1Box f f (2 * (5 * n / 2)) (n * (2 * q + 1) / 2) = (K, n * (2 * q + 1) / 2) := by
     unfold dealWith1x1Box
-    simp only [r_le, le_refl, decide_true, if_true]
-    omega
-  sorry
+    simp only [r_le, r_ge, le_refl, decide_true, if_true]
+    by_cases c : (1 : ℝ) - f ≤ f
+    · refine ⟨2 * (5 * n / 2) + 1 + 1, by omega, ?_⟩
+      simp only [r_one, c, decide_true, if_true]; rfl
+    · refine ⟨2 * (5 * n / 2) + 1 + 0, by omega, ?_⟩
+      simp only [r_one, c, decide_false, Bool.false_eq_true, if_false]; rfl
+  obtain ⟨K, hK, hb⟩ := hbox
+  rw [hb, hashTail_pole debug _ _ hn hK, r_one]
+  have : n * (2 * q + 1) / 2 / n = q := by
+    have e1 : n * (2 * q + 1) = 2 * (n * q) + n := by ring
+    rw [e1]
+    have e2 : (2 * (n * q) + n) / 2 = n * q + n / 2 := by omega
+    rw [e2, Nat.mul_add_div (by omega), Nat.div_eq_of_lt (by omega)]; rfl
+  rw [this]
 
 end Hpx.RingReal
